@@ -422,14 +422,16 @@ def require_ok(r: TLCResult, what: str, min_distinct: int = 1) -> TLCResult:
 
 
 def printed_values(output: str, tag: str) -> Iterator[Any]:
-    """Values printed by TLC with PrintT(<<tag, value>>) -- multi-line aware by bracket matching."""
-    marker = '<<"' + tag + '", '
+    """Values printed by TLC with PrintT(<<tag, value>>) -- multi-line aware by bracket matching
+    (TLC pretty-prints long tuples as `<< "tag",` + newline, so whitespace after << is allowed)."""
+    pat = re.compile(r'<<\s*"' + re.escape(tag) + r'",')
     i = 0
     n = len(output)
     while True:
-        j = output.find(marker, i)
-        if j < 0:
+        m = pat.search(output, i)
+        if not m:
             return
+        j = m.start()
         depth = 0
         k = j
         in_str = False
